@@ -16,10 +16,10 @@
 (* Mode "gobuild": `//go:build` expression trees with ! && || and          *)
 (*   parentheses; "!" binds tightest, then "&&", then "||".  Printed with  *)
 (*   the fewest parentheses that precedence allows (`min`) and with all    *)
-(*   parentheses (`full`).  "!!x" is not in the grammar (the go tool rejects *)
-(*   a double negation); a negated negation is written "!(!x)".            *)
-(*   characters: 1 2 3 tags, 4 "!", 7 "(", 8 ")",   *)
-(*   9 " && ", 10 " || ".  /repo has no evaluator of its own for these     *)
+(*   parentheses (`full`).  "!!x" is not in the grammar (the go tool       *)
+(*   rejects a double negation); a negated negation is written "!(!x)".    *)
+(*   characters: 1 2 3 tags, 4 "!", 7 "(", 8 ")", 9 " && ", 10 " || ".     *)
+(*   /repo has no evaluator of its own for these                           *)
 (*   (it delegates to go/build); the cases validate this specification     *)
 (*   against go/build/constraint and the law LegacyIsDNF ties them to the  *)
 (*   legacy form.                                                          *)
